@@ -22,7 +22,7 @@ ASSUMPTIONS = ['errors are non-negative (C08 DS-SIGN)', 'scipy chi2.sf is '
 
 def check(ctx):
     ctx.run(stats.check_chi2)
-    ctx.run(dataset.check_quad, kinds=('sub',))
+    ctx.run(dataset.check_quad, kinds=('sub',), nan_strict=True)
 
 
 def variants(program):
